@@ -42,6 +42,7 @@ func StdScope() rel.Scope {
 			stdOsUnsafe(),
 			stdNet(),
 			stdDeprecated(),
+			stdEvalUnsafe(),
 		))
 		arraiUnsafeStdlib := mustParseBundle(stdlibUnsafeArraiz())
 		stdlibVal, err := rel.NewCallExprCurry(*parser.NewScanner("stdlib"), arraiUnsafeStdlib, goStdlib).
